@@ -627,6 +627,8 @@ def getslice(I, o, lo, hi, step, node):
         a = I.ctx.choose([start == i for i in range(n + 1)])
         b = I.ctx.choose([stop == i for i in range(n + 1)])
         return o[a:b]
+    if isinstance(o, SObj) and isinstance(o.fields.get("__getitem__"), NativeFn):      # abstract object with a modelled __getitem__
+        return o.fields["__getitem__"].fn(I, [SliceVal(lo, hi, step)], {})
     if isinstance(o, SObj) and isinstance(o.cls, ClassInfo):
         m = o.cls.find_method("__getitem__")
         if m is not None:
